@@ -284,6 +284,7 @@ _DEFD = ["c15_deferred_s0_a1", "c15_deferred_s1_a1", "c15_deferred_s8_a8", "c15_
 PROPS["DEFD"] = dict(title="(dev) deferred", level="proof", modules=["deferred_h.rs"], contract_groups=[],
                    kani=dict(quick=_h("deferred_h.rs", _DEFD)), trusted_base=[A_TOOLS])
 _L3B = ["c15_bag", "c13_push_bag", "c13_collect", "c15_defer", "c15_flush", "c15_finalize"]
+PROPS["L3C"] = dict(title="(dev) handle/register", level="proof", modules=["epoch_h.rs", "internal_h.rs", "list_h.rs", "queue_h.rs", "deferred_h.rs"], contract_groups=["epoch", "expired"], kani=dict(quick=["internal_h.rs::c15_local_handle", "internal_h.rs::c18_register", "internal_h.rs::c15_queue_drop_runs_leftovers"]), trusted_base=[], kani_flags=_FAST)
 PROPS["L3B"] = dict(title="(dev) internal.rs bags/defer/collect", level="proof", modules=["epoch_h.rs", "internal_h.rs", "list_h.rs", "queue_h.rs", "deferred_h.rs"], contract_groups=["epoch", "expired"],
                    kani=dict(quick=_h("internal_h.rs", ["c13_collect", "c15_finalize"])), trusted_base=[A_TOOLS], kani_flags=_FAST)
 PROPS["Q"] = dict(title="(dev) queue", level="other", modules=["queue_h.rs"], contract_groups=[], kani=dict(quick=_h("queue_h.rs", ["c17_queue_sequential"])), trusted_base=[A_TOOLS], kani_flags=_FAST)
@@ -329,23 +330,24 @@ PROPS["C15"] = dict(
     harness_timeout=dict(quick=1500, thorough=5400),
     title="every deferred function runs exactly once, even across thread exit", level="proof",
     modules=_L3M, contract_groups=_L3G,
-    kani=dict(quick=_h("deferred_h.rs", _DEFD) + _h(_INT, ["c15_bag", "c15_defer", "c15_flush", "c15_finalize", "c13_push_bag", "c13_collect", "c16_unpin", "c15_handles", "c15_guard_defer"])),
+    kani=dict(quick=_h("deferred_h.rs", _DEFD) + _h(_INT, ["c15_bag", "c15_defer", "c15_flush", "c15_finalize", "c13_push_bag", "c13_collect", "c16_unpin", "c15_handles", "c15_guard_defer", "c15_local_handle", "c18_register"]),
+              thorough=_h(_INT, ["c15_queue_drop_runs_leftovers"])),
     kani_flags=_FAST,
     loops="Bag::drop drains <= 3 stored functions; Local::defer's retry loop; collect's trial loop with <= 2 bags: all unwound with unwinding assertions on (complete for the bounded sizes)",
     bounded=["Bag capacity 2-3 instead of MAX_OBJECTS = 64 (try_push / Drop / defer / flush are otherwise symbolic in the fill level)", "global queue of <= 2 sealed bags", "closure size/alignment classes enumerated: sizes {0,1,8,24,25,28,31,32,64} x aligns {1,8,16,32}"],
-    functions_under_contract=["Deferred::{new,call}", "Bag::{new,is_empty,try_push,seal,drop}", "Guard::{defer_unchecked,flush,incr_manual_collection}", "Local::{defer,flush,push_to_global,schedule_collection,incr_advance,incr_manual_collection,acquire_handle,release_handle,finalize,unpin}", "Global::{push_bag,collect}"],
+    functions_under_contract=["Collector::register", "Local::register", "LocalHandle::{pin,drop}", "Queue::drop (thorough)", "Deferred::{new,call}", "Bag::{new,is_empty,try_push,seal,drop}", "Guard::{defer_unchecked,flush,incr_manual_collection}", "Local::{defer,flush,push_to_global,schedule_collection,incr_advance,incr_manual_collection,acquire_handle,release_handle,finalize,unpin}", "Global::{push_bag,collect}"],
     expected_obligations=["C15.deferred.call_runs_exactly_once", "C15.deferred.captured_data_intact", "C15.deferred.captures_dropped_exactly_once", "C15.bag.drop_runs_each_once_in_order", "C15.bag.try_push_err_returns_the_same_function",
                           "C15.defer.function_is_last_in_bag_exactly_once", "C15.defer.full_bag_goes_to_global_queue_intact", "C15.flush.moves_local_bag_to_global_queue_iff_nonempty", "C15.push_bag.content_moves_intact",
                           "C15.finalize.hands_local_bag_to_global_queue", "C15.finalize.releases_exactly_one_collector_reference", "C15.collect.each_function_at_most_once", "C15.unpin.runs_scheduled_collection_from_outermost_unpin",
-                          "C15.guard_defer.function_runs_exactly_once_with_its_captures"],
+                          "C15.guard_defer.function_runs_exactly_once_with_its_captures", "C15.handle_drop.releases_exactly_one_handle_share", "C15.register.participant_keeps_its_collector_alive"],
     trusted_base=[A_TOOLS, "liveness ('after finitely many rounds') and real thread exit (TLS destructors) are outside the family: what is proved is the conservation invariant - every deferred function is in exactly one of {local bag, a sealed bag in the global queue, executed} after each operation"],
-    assumptions=["'eventually' is not decided (a change that only stops progress - e.g. never scheduling a collection when the local bag is empty - is not a contract violation of any single function and is NOT detected)", "Queue::drop running what is left at collector teardown is not covered"],
+    assumptions=["'eventually' is not decided (a change that only stops progress - e.g. never scheduling a collection when the local bag is empty - is not a contract violation of any single function and is NOT detected)", "Queue::drop running what is left at collector teardown: thorough tier only (c15_queue_drop_runs_leftovers, ~4.5 min)"],
 )
 PROPS["C16"] = dict(
     harness_timeout=dict(quick=1500, thorough=5400),
     title="nested guards and reactivation keep the thread pinned exactly as documented", level="proof",
     modules=_L3M, contract_groups=_L3G,
-    kani=dict(quick=_h(_INT, ["c16_pin", "c16_unpin", "c16_repin", "c16_reactivate_after", "c15_handles", "c15_finalize", "c16_guard_drop", "c14_repin_without_collect", "c15_flush"])),
+    kani=dict(quick=_h(_INT, ["c16_pin", "c16_unpin", "c16_repin", "c16_reactivate_after", "c15_handles", "c15_finalize", "c16_guard_drop", "c14_repin_without_collect", "c15_flush", "c15_local_handle", "c18_register"])),
     kani_flags=_FAST,
     loops="unbounded nesting by the data-structure invariant InvL (guard_count > 0 <=> pinned bit) from a symbolic guard_count/handle_count; arbitrary depth and order follow by induction on operations",
     functions_under_contract=["Local::{pin,unpin,repin,repin_without_collect,acquire_handle,release_handle,finalize}", "Guard::{reactivate,reactivate_after,drop}"],
@@ -374,12 +376,12 @@ PROPS["C18"] = dict(
     harness_timeout=dict(quick=1500, thorough=5400),
     title="epoch advancement never overlooks a registered participant: sequential traversal contract", level="other",
     modules=_L3M, contract_groups=_L3G,
-    kani=dict(quick=_h("list_h.rs", ["c18_iter_sequential", "c18_insert_delete", "c18_delete_is_atomic"]) + _h(_INT, ["c13_try_advance", "c15_finalize", "c18_try_advance_stalled"])), kani_flags=_FAST,
+    kani=dict(quick=_h("list_h.rs", ["c18_iter_sequential", "c18_insert_delete", "c18_delete_is_atomic"]) + _h(_INT, ["c13_try_advance", "c15_finalize", "c18_try_advance_stalled", "c18_register"])), kani_flags=_FAST,
     loops="Iter::next's unlink loop and List::insert's CAS loop: unwound with unwinding assertions on (complete for <= 3 entries)",
     bounded=["registry of <= 3 entries with symbolic delete marks; single thread"],
     functions_under_contract=["List::{new,insert,iter}", "Entry::delete", "Iter::next", "Global::try_advance (visits every participant)", "Local::finalize (marks its entry)"],
     expected_obligations=["C18.iter.visits_every_registered_unremoved_entry_once", "C18.iter.removed_entries_unlinked_and_finalized_exactly_once", "C18.iter.list_keeps_exactly_the_unremoved_entries",
-                          "C18.insert.new_entry_is_reachable_from_head", "C18.insert.keeps_every_existing_entry_reachable", "C18.delete.sets_only_the_mark_of_this_entry", "C18.finalize.marks_registry_entry_deleted", "C18.advance.stalled_traversal_does_not_advance",
+                          "C18.insert.new_entry_is_reachable_from_head", "C18.insert.keeps_every_existing_entry_reachable", "C18.delete.sets_only_the_mark_of_this_entry", "C18.finalize.marks_registry_entry_deleted", "C18.advance.stalled_traversal_does_not_advance", "C18.register.participant_is_reachable_from_registry_head", "C18.delete.marks_atomically_no_lost_unlink",
                           "C13.advance.refuses_while_a_pinned_participant_lags"],
     trusted_base=[A_TOOLS, "concurrent insert/delete during a traversal (the schedule-quantified half, incl. the Stalled path) is NOT decided"],
     assumptions=["bounded and sequential; labelled bounded, not counted as a proof of the property"],
@@ -391,10 +393,10 @@ PROPS["C18"] = dict(
 # "every size" - reported separately in the evidence and never counted as proved-without-bound.
 BOUNDED_HARNESSES = {
     "c13_collect": "global queue of <= 2 sealed bags", "c13_try_advance": "registry of 2 participants", "c14_try_advance_monotone": "registry of 2 participants",
-    "c18_try_advance_stalled": "registry of 3 participants, one environment step", "c15_bag": "bag capacity 3", "c15_defer": "bag capacity 2", "c15_flush": "bag capacity 2", "c15_finalize": "bag capacity 2", "c13_push_bag": "bag of <= 2 functions",
+    "c18_try_advance_stalled": "registry of 3 participants, one environment step", "c15_queue_drop_runs_leftovers": "queue of <= 2 sealed bags of 1 function", "c15_bag": "bag capacity 3", "c15_defer": "bag capacity 2", "c15_flush": "bag capacity 2", "c15_finalize": "bag capacity 2", "c13_push_bag": "bag of <= 2 functions",
     "c17_queue_sequential": "queue length <= 3, sequential", "c17_pop_if_under_interference": "queue of 2, one environment step",
     "c18_delete_is_atomic": "one entry, <= 2 environment writes", "c18_iter_sequential": "registry of <= 3 entries, sequential", "c18_insert_delete": "registry of <= 3 entries, sequential",
     "c10_new_many_0": "N = 0", "c10_new_many_1": "N = 1", "c10_new_many_2": "N = 2", "c10_new_many_3": "N = 3", "c10_new_many_8": "N = 8",
     "c10_weak_many_0": "N = 0", "c10_weak_many_1": "N = 1", "c10_weak_many_3": "N = 3", "c10_weak_many_8": "N = 8",
 }
-DEV = ("RG", "L2S", "L2W", "DISP", "EP", "L3", "DEFD", "L3B", "Q", "LST")
+DEV = ("RG", "L2S", "L2W", "DISP", "EP", "L3", "DEFD", "L3B", "L3C", "Q", "LST")
